@@ -247,7 +247,7 @@ def rule_s3(ctx: Ctx) -> None:
     for st in lp.body:
         if isinstance(st, ast.Assign) and isinstance(st.value, ast.Call) and unparse(st.value.func) == var and len(st.value.args) == 1:
             obj = unparse(st.targets[0])
-        if isinstance(st, ast.If) and obj is not None and unparse(st.test) == f"{obj}.applies()" and len(st.body) == 1 and "append" in unparse(st.body[0]) and obj in unparse(st.body[0]) and not st.orelse:
+        if isinstance(st, ast.If) and obj is not None and unparse(st.test) == f"{obj}.applies()" and len(st.body) == 1 and isinstance(st.body[0], ast.Expr) and isinstance(st.body[0].value, ast.Call) and call_name(st.body[0].value) and call_name(st.body[0].value)[-1] == "append" and [unparse(a) for a in st.body[0].value.args] == [obj] and not st.orelse:
             ok = True
     if ok and len(sel_names) == 1 and unparse(lp.iter) in sel_names:
         ctx.ok("C19-S3", fs.where, "same step for every selected strategy: construct on the basis, keep iff applies()", lp, fs)
